@@ -117,11 +117,12 @@ def generate(seed, tier="quick"):
         if cands:
             t = nrng.choice(cands)
             t["args"] = "pytester, monkeypatch"
-            how = nrng.choice(["disable", "ci", "active", "disable"])
+            how = nrng.choice(["disable", "ci", "active", "disable", "bogus"])
             lines = ["pytester.makepyfile(test_inner='def test_i():\\n    assert 1 == 1\\n')"]
             if how == "ci":
                 lines.append("monkeypatch.setenv('CI', 'true')")
-            inner_flags = "'--inline-snapshot=disable', " if how == "disable" else ""
+            # ("bogus": the inner session stops with a usage error in pytest_configure - pytest_sessionfinish is never called for it)
+            inner_flags = "'--inline-snapshot=disable', " if how == "disable" else "'--inline-snapshot=bogus', " if how == "bogus" else ""
             lines.append(f"pytester.runpytest_inprocess('-p', 'inline_snapshot.pytest_plugin', '-p', 'no:cacheprovider', {inner_flags}'-q')")
             for ln in lines:
                 t["events"].append({"t": "stmt", "text": ln})
@@ -206,6 +207,11 @@ def execute(case, ctx):
     if res.get("status") != "ok":
         out["discards"]["session-process-died"] = 1
         return out
+    if res.get("state_depth") not in (0, None):
+        # a nested in-process session (or the session itself) left a snapshot state pushed: every later fixture of the embedding session reads the
+        # counters of the wrong state - wrong and missing snapshots of the tests that follow are no longer seen
+        viol("state-restored", "snapshot-state-stack-not-restored-after-session",
+             f"{res.get('state_depth')} snapshot state(s) still pushed after the session (flags={cfg['flags']}, nested in-process session: {bool(case.get('pytester'))})\n{res.get('out', '')[-1200:]}")
     if res.get("rc") in (3, 4) or (res.get("rc") is None):
         # internal error / usage error: session-finish trouble is C18's statement; the exit status is non-zero anyway
         out["discards"]["session-internal-error(C18)"] = 1
